@@ -38,7 +38,7 @@ impl DPush {
     fn push(&mut self, m: &[u8], ad: Option<&[u8]>, tag: u8) -> Result<Vec<u8>, String> {
         match self {
             DPush::Classic(s) => {
-                let mut c = vec![0u8; m.len() + 17];
+                let mut c = stale(m.len() + 17);
                 ss::crypto_secretstream_xchacha20poly1305_push(s, &mut c, m, ad, tag).map_err(|e| e.to_string())?;
                 Ok(c)
             }
@@ -78,7 +78,7 @@ impl DPull {
     fn pull(&mut self, c: &[u8], ad: Option<&[u8]>) -> Result<(Vec<u8>, u8), String> {
         match self {
             DPull::Classic(s) => {
-                let mut m = vec![0u8; c.len() - 17];
+                let mut m = stale(c.len() - 17);
                 let mut tag = 0xEEu8;
                 ss::crypto_secretstream_xchacha20poly1305_pull(s, &mut m, &mut tag, c, ad).map_err(|e| e.to_string())?;
                 Ok((m, tag))
@@ -135,7 +135,7 @@ fn run_history(cx: &mut Ctx, rng: &mut Rng, hid: u64, depth: usize, class: usize
     // ---- initialisation, alternating which library picks the header
     let (header, dpush0, npush0) = if hid % 2 == 0 {
         let mut st = ss::State::new();
-        let mut header = [0u8; 24];
+        let mut header = stale_arr::<24>();
         ss::crypto_secretstream_xchacha20poly1305_init_push(&mut st, &mut header, &key);
         let n = na::stream_init_pull(&header, &key); // same derivation as init_push with this header
         (header, st, n)
